@@ -92,7 +92,12 @@ def check(ctx):
     ctx.ob("R13.2", f"{k('id_from_ref')}|offset-from-pool-base", ok1, f"{b1.f['file']}:{b1.f['line']}", f"id = `{s1}`; required: offset of the ref from element 0 of the pool")
     b2 = Body(fx.fn(k("ref_from_id"))); d2 = D.Dag(b2)
     e = d2.local(0); s2 = show(e)
-    ok2 = "get_unchecked_mut" in s2 and "pool" in s2 and "slot_id" in s2
+    idx = [(b, c) for (b, c) in b2.calls if c.get("fname") in ("get_unchecked_mut", "get_unchecked")]
+    ok2 = len(idx) == 1 and "pool" in s2
+    if ok2:
+        i = strip_casts(d2.expr(idx[0][1]["args"][1]))
+        is_param = lambda v: strip_casts(v)[0] == "param" and strip_casts(v)[1] == 2
+        ok2 = is_param(i) or (i[0] == "bin" and i[1] == "Rem" and is_param(i[2]) and strip_casts(i[3]) == ("gconst", "POOL_SIZE"))
     ctx.ob("R13.2", f"{k('ref_from_id')}|index-into-pool", ok2, f"{b2.f['file']}:{b2.f['line']}", f"ref = `{s2}`; required: pool[id]")
     for n in ("alloc_with", "alloc_with_async"):
         ks = [x for x in fx.by_key if x.startswith(k(n))]
